@@ -257,6 +257,28 @@ func runConn(cs *caseT) *outcome {
 	case <-time.After(3 * time.Second):
 		o.noEnd = true
 	}
+	// the server may close the connection before it tears the session down (BYE): wait until the
+	// teardown has finished as well before taking the snapshot of the events
+	if !o.noEnd {
+		deadline := time.Now().Add(3 * time.Second)
+		for {
+			l.mu.Lock()
+			started, closed := false, false
+			for _, e := range l.evs {
+				switch e["ev"] {
+				case "NewSession":
+					started = true
+				case "SessionClose":
+					closed = true
+				}
+			}
+			l.mu.Unlock()
+			if closed || !started || time.Now().After(deadline) {
+				break
+			}
+			time.Sleep(50 * time.Microsecond)
+		}
+	}
 	c.Close()
 	l.mu.Lock()
 	o.evs = append([]evT(nil), l.evs...)
